@@ -29,7 +29,7 @@ def findings():
 
 def seeded():
     rows = ["| id | the change (author's title) | demo without / with | repo tests with change | `./check` result (quick tier) |", "|---|---|---|---|---|"]
-    for d in sorted(glob.glob(os.path.join(V, "seeded", "*"))):
+    for d in sorted(glob.glob(os.path.join(V, "seeded", "*")), key=lambda x: [int(t) if t.isdigit() else t for t in re.split(r"(\d+)", os.path.basename(x))]):
         mp = os.path.join(d, "meta.json")
         if not os.path.exists(mp):
             continue
